@@ -9,8 +9,12 @@ import (
 // IterateStructFields iterates through all the fields of the given structNode and
 // calls the given callback function for each one.
 // If the callback function returns true, the iteration stops.
+// Blank fields are passed over: they can be neither read nor assigned.
 func IterateStructFields(structNode Node, cb func(Node) (done bool)) {
 	util.IterateFields(structNode.ExprType(), func(t *types.Var) (done bool) {
+		if t.Name() == "_" {
+			return false
+		}
 		node := NewStructFieldNode(structNode, t)
 		return cb(node)
 	})
